@@ -69,6 +69,57 @@ def _polarity_of_many(test, param="many"):
     return None
 
 
+def _evaluate_parse_args(prog, pa):
+    """parse_args() interpreted with a recording model of argparse.ArgumentParser: the arguments added (destination ->
+    (node, option strings, keywords as values)) and whether the value returned is what the parser's parse_args() gave."""
+    from ..accessors import AccessorEval, Raised, Rec
+    from ..symarr import NotSymbolic
+
+    added = []
+    others = _evaluate_parse_args.others = []
+    result = Rec(None, kind="namespace")
+
+    def make_parser(a, k):
+        parser = Rec(None)
+        parser.fields["add_argument"] = ("<function>", lambda a2, k2: added.append((list(a2), dict(k2))))
+        parser.fields["parse_args"] = ("<function>", lambda a2, k2: result if not a2 and not k2 else Rec(None, kind="other arguments"))
+        for other in ("set_defaults", "add_mutually_exclusive_group", "add_argument_group", "add_subparsers", "parse_known_args", "parse_intermixed_args"):
+            parser.fields[other] = ("<function>", lambda a2, k2, other=other: others.append((other, list(a2), dict(k2))))
+        return parser
+
+    ev = AccessorEval(prog, None, limit=4000)
+    ev.module = pa.module
+    ev.ext_stubs = {"argparse.ArgumentParser": make_parser}
+    # texts shown to the user (built from the registry / the installed version): no role in how options are bound
+    ev._globals = {(pa.module.name, "DESCRIPTION"): "DESCRIPTION", (pa.module.name, "__version__"): "0.0.0"}
+    try:
+        got = ev.run_free(pa, [], {})
+    except Raised as exc:
+        raise AnalysisError(f"parse_args: evaluation raises {exc.args[0]}") from exc
+    except NotSymbolic as exc:
+        raise AnalysisError(f"parse_args is outside the evaluation whitelist: {exc}") from exc
+    dests = {}
+    for args, kws in added:
+        strs = [a for a in args if isinstance(a, str)]
+        if isinstance(kws.get("dest"), str):
+            dest = kws["dest"]
+        else:
+            longs = [s_ for s_ in strs if s_.startswith("--")]
+            if longs:
+                dest = longs[0][2:].replace("-", "_")
+            elif strs and not strs[0].startswith("-"):
+                dest = strs[0]
+            elif strs:
+                dest = strs[0].lstrip("-").replace("-", "_")
+            else:
+                continue
+        # the node for reports: the add_argument call mentioning the option string when it is literal, else the function
+        node = next((n for n in pa.own_nodes() if isinstance(n, ast.Call) and isinstance(n.func, ast.Attribute) and n.func.attr == "add_argument" and any(isinstance(x, ast.Constant) and x.value in strs for x in n.args)), pa.node)
+        dests[dest] = (node, strs, kws)
+    _evaluate_parse_args.order = [(dest, v[1]) for dest, v in dests.items()]
+    return dests, got is result
+
+
 def run(ctx):
     prog = ctx.prog
     conv = prog.func("iodata.__main__.convert")
@@ -102,24 +153,7 @@ def run(ctx):
     # ------------------------------------------------------------------ R2
     ctx.rule("R2", "argparse destinations reach convert() by role", "a mis-bound option silently converts with the wrong setting")
     pa = prog.func("iodata.__main__.parse_args")
-    dests = {}
-    for n in pa.own_nodes():
-        if isinstance(n, ast.Call) and isinstance(n.func, ast.Attribute) and n.func.attr == "add_argument":
-            strs = [a.value for a in n.args if isinstance(a, ast.Constant) and isinstance(a.value, str)]
-            kws = {k.arg: k.value for k in n.keywords}
-            if "dest" in kws and isinstance(kws["dest"], ast.Constant):
-                dest = kws["dest"].value
-            else:
-                longs = [s for s in strs if s.startswith("--")]
-                if longs:
-                    dest = longs[0][2:].replace("-", "_")
-                elif strs and not strs[0].startswith("-"):
-                    dest = strs[0]
-                elif strs:
-                    dest = strs[0].lstrip("-").replace("-", "_")
-                else:
-                    continue
-            dests[dest] = (n, strs, kws)
+    dests, parser_result = _evaluate_parse_args(prog, pa)
     role_of_dest = {"input": "infn", "output": "outfn", "many": "many", "infmt": "infmt", "outfmt": "outfmt", "allow_changes": "allow_changes"}
     for d in role_of_dest:
         if d not in dests:
@@ -127,27 +161,23 @@ def run(ctx):
     for d in ("many", "allow_changes"):
         if d in dests:
             n, strs, kws = dests[d]
-            act = kws.get("action")
-            dflt = kws.get("default")
-            if not (isinstance(act, ast.Constant) and act.value == "store_true"):
+            if kws.get("action") != "store_true":
                 ctx.violate("R2", f"flag '{d}' is not action='store_true'", pa, n)
-            elif dflt is not None and not (isinstance(dflt, ast.Constant) and dflt.value is False):
+            elif "default" in kws and kws["default"] is not False:
                 ctx.violate("R2", f"flag '{d}' does not default to False", pa, n)
             else:
                 ctx.ok("R2", f"flag {d}: store_true, default False", pa.where)
     for d in ("infmt", "outfmt", "input", "output"):
         if d in dests:
             n, strs, kws = dests[d]
-            bad = [k for k in ("action", "type", "nargs", "const", "default", "choices") if k in kws and not (k == "default" and isinstance(kws[k], ast.Constant) and kws[k].value is None)]
+            bad = [k for k in ("action", "type", "nargs", "const", "default", "choices") if k in kws and not (k == "default" and kws[k] is None)]
             if bad:
                 ctx.violate("R2", f"argument '{d}' has transforming options {bad}", pa, n)
             else:
                 ctx.ok("R2", f"argument {d}: plain string", pa.where)
     # parse_args returns parser.parse_args()
-    rets = [n for n in pa.own_nodes() if isinstance(n, ast.Return)]
-    okret = len(rets) == 1 and isinstance(deref(pa, rets[0].value), ast.Call) and getattr(deref(pa, rets[0].value).func, "attr", "") == "parse_args"
-    if not okret:
-        ctx.violate("R2", "parse_args() does not return parser.parse_args()", pa, rets[0] if rets else pa.node)
+    if parser_result is not True:
+        ctx.violate("R2", "parse_args() does not return parser.parse_args()", pa, pa.node, construct="parse_args result")
     # main: convert(args.X ...)
     conv_calls = [cs for cs in main.calls if conv in cs.callees]
     if len(conv_calls) != 1:
@@ -357,28 +387,16 @@ def check_cli_arguments(ctx, rid):
     pa = prog.func("iodata.__main__.parse_args")
     mainf = prog.func("iodata.__main__.main")
     conv = prog.func("iodata.__main__.convert")
-    pvar = None
-    for n in pa.own_nodes():
-        if isinstance(n, ast.Assign) and isinstance(n.value, ast.Call) and src_of(n.value.func).endswith("ArgumentParser") and isinstance(n.targets[0], ast.Name):
-            pvar = n.targets[0].id
-    if pvar is None:
-        raise AnalysisError("__main__.parse_args: no ArgumentParser construction found")
+    # the parser as parse_args() builds it, by evaluation with a recording model of argparse.ArgumentParser
+    dests, _res = _evaluate_parse_args(prog, pa)
     positionals, options = [], {}
-    for n in pa.own_nodes():
-        if isinstance(n, ast.Call) and isinstance(n.func, ast.Attribute) and isinstance(n.func.value, ast.Name) and n.func.value.id == pvar:
-            if n.func.attr == "add_argument":
-                try:
-                    names = [ast.literal_eval(a) for a in n.args]
-                    kw = {k.arg: (ast.literal_eval(k.value) if isinstance(k.value, ast.Constant) else src_of(k.value)) for k in n.keywords}
-                except ValueError as exc:
-                    raise AnalysisError("parse_args: add_argument with non-literal option strings") from exc
-                if names and not names[0].startswith("-"):
-                    positionals.append(names[0])
-                else:
-                    dest = kw.get("dest") or next((x for x in names if x.startswith("--")), names[0]).lstrip("-").replace("-", "_")
-                    options[dest] = (tuple(names), kw.get("action"), kw.get("default"), n)
-            elif n.func.attr != "parse_args":
-                ctx.violate(rid, f"parse_args calls `{pvar}.{n.func.attr}(...)`: the parser is changed outside the documented argument table (defaults set elsewhere override what the table says)", pa, n)
+    for dest, (node, names, kw) in dests.items():
+        if names and not names[0].startswith("-"):
+            positionals.append(names[0])
+        else:
+            options[dest] = (tuple(names), kw.get("action"), kw.get("default"), node)
+    for other, a2, k2 in _evaluate_parse_args.others:
+        ctx.violate(rid, f"parse_args calls `parser.{other}(...)`: the parser is changed outside the documented argument table (defaults set elsewhere override what the table says)", pa, pa.node, construct=f"parser.{other}")
     if positionals != CLI_POSITIONALS:
         ctx.violate(rid, f"the positional arguments are {positionals}, documented {CLI_POSITIONALS}: `iodata-convert a b` reads the file it should write", pa, pa.node, construct=f"positionals {positionals}")
     else:
